@@ -11,6 +11,16 @@ BASELINE = ("cd /repo && /venv/bin/python -m pytest -ra -q -p no:cacheprovider -
 
 # pid -> (category, text, design_ref, level_note, technique)
 CLAIMED = {
+ "C14": ("model_checking",
+         "pylogix (no shared code with cpppo) drives a live simulator thread through register, (Large) Forward Open, connected reads / writes "
+         "of INT / DINT / SINT / REAL / LINT / UINT / UDINT scalars and arrays, arrays of exactly one and two full replies and of 600 "
+         "elements (its own fragment loop), multi-tag reads, out-of-range and unknown tags, twelve auto-allocated tags, Close; the "
+         "TLC-emitted operation lists' observed (value, status) sequences are validated by TLC (ClientTrace) against the tag "
+         "model; spec-encoded raw frames (Register, bare and Unconnected-Send-wrapped reads / writes) are written to the TCP "
+         "socket and the replies validated by TLC (ServerTrace) with the spec's decoder.",
+         "5/C14", "conformance-dominated: the spec is the reference encoder / decoder and the array model; pylogix status strings mapped by a fixed table; "
+         "raw connected (Forward Open / SendUnitData) frames are exercised through pylogix only",
+         "independent client (pylogix) sessions and spec-encoded raw frames against the live simulator, validated by TLC trace specs"),
  "C12": ("model_checking",
          "spec/Client.tla: the application-level contract (one result per operation, in order, equal to issuing the operations one "
          "after the other on the tag model, plain and fragment mode) and the text of an operation (OpText); TLC emits every "
